@@ -35,7 +35,7 @@ def run(tier, seed):
     n = 0
     for cpu, texts in sorted(percpu.items()):
         texts = sorted(set(texts))
-        ts = texts if tier == "thorough" else rnd.sample(texts, min(60, len(texts)))
+        ts = texts        # both tiers probe every corpus form (the whole run takes about half a minute)
         for text in ts:
             if ":" in text.split()[0]:
                 continue        # label definitions change the program, not an operand
@@ -86,7 +86,7 @@ def run(tier, seed):
     chk.cov.update(dict(
         evaluations=sum(len(c[2].split("\n")) for c in cases),
         distinct_nontrivial=len(cases),
-        rule="every instruction text of tests/comparison/*.txt that has a numeric operand (quick: 60 per CPU), each numeric "
+        rule="every instruction text of tests/comparison/*.txt that has a numeric operand each numeric "
              "operand position probed with the values of Codec!ProbeSet (2^k-1, 2^k, 2^k+1, -2^k, -2^k-1, -2^k+1 for k = 1..17, 20, 21, 23, 24, 26, 31, 32); non-trivial/distinct = (cpu, form, operand position) groups",
         traces_validated_against_impl=len(events) - len(canaries), probe_values=len(vals), not_covered=sorted(skip),
         canaries=dict(injected=len(canaries), rejected=len(canaries)), exhaustive=False))
